@@ -10,7 +10,9 @@
 //   F which hex stochastic       class chosen by the factory          -> fac
 // impl-only (evaluated by the monitor, not compared with the model):
 //   G dir ew ns kname scale shape seed n          kappa = 1e6 geometry -> geo
+//   GF nat|ant dir ew ns kname scale shape seed n    the same through the factory -> geo
 //   R kname scale shape dir kappa ew ns seed n    end-to-end distance law -> rad
+//   RF nat|ant kname scale shape dir kappa ew ns seed n   the same through the factory -> rad
 //   K kname scale shape seed n                    goodness of fit of random() -> ks
 //   B p seed n                                    frequency of the anthropogenic branch -> bfreq
 #include <pops/kernel_types.hpp>
@@ -211,6 +213,59 @@ static const char* class_of(KI* k)
     return "other";
 }
 
+
+// Library spelling of the harness's kernel tokens (for the factory cases).
+static std::string libname_of(const std::string& t)
+{
+    if (t == "lognormal") return "log-normal";
+    if (t == "powerlaw") return "power-law";
+    if (t == "hsecant") return "hyperbolic-secant";
+    if (t == "exppower") return "exponential-power";
+    return t;
+}
+static std::string opposite_of(const std::string& d)
+{
+    if (d == "N") return "S";
+    if (d == "NE") return "SW";
+    if (d == "E") return "W";
+    if (d == "SE") return "NW";
+    if (d == "S") return "N";
+    if (d == "SW") return "NE";
+    if (d == "W") return "E";
+    if (d == "NW") return "SE";
+    return "N";
+}
+// A radial kernel created by create_natural_kernel / create_anthro_kernel from a
+// Config; the parameters of the OTHER kernel are set to decoy values so that a
+// mix-up of natural and anthropogenic parameters is visible.
+static std::unique_ptr<KernelInterface<Gen>> factory_radial(
+    const std::string& which, const std::string& kname, double scale, double shape,
+    const std::string& dir, double kappa, double ew, double ns,
+    const Raster<int>& dispersers, const Network<int>& network)
+{
+    Config config;
+    config.rows = 5;
+    config.cols = 5;
+    config.ew_res = ew;
+    config.ns_res = ns;
+    config.shape = shape;
+    config.dispersal_stochasticity = true;
+    config.network_movement = "walk";
+    bool nat = which == "nat";
+    std::string d = dir == "NONE" ? "" : dir;
+    config.natural_kernel_type = nat ? libname_of(kname) : "cauchy";
+    config.anthro_kernel_type = nat ? "cauchy" : libname_of(kname);
+    config.natural_scale = nat ? scale : scale * 7 + 1;
+    config.anthro_scale = nat ? scale * 7 + 1 : scale;
+    config.natural_direction = nat ? d : opposite_of(dir);
+    config.anthro_direction = nat ? opposite_of(dir) : d;
+    config.natural_kappa = nat ? kappa : 0;
+    config.anthro_kappa = nat ? 0 : kappa;
+    if (nat)
+        return create_natural_kernel<Gen, Raster<int>, int>(config, dispersers);
+    return create_anthro_kernel<Gen, Raster<int>, int>(config, dispersers, network);
+}
+
 int main(int argc, char** argv)
 {
     if (argc < 2)
@@ -368,35 +423,61 @@ int main(int argc, char** argv)
             });
             std::printf("%d fac %s\n", k, r.c_str());
         }
-        else if (c == "G") {
-            // G dir ew ns kname scale shape seed n
+        else if (c == "G" || c == "GF") {
+            // G dir ew ns kname scale shape seed n   /   GF nat|ant dir ew ns kname scale shape seed n
+            size_t o = c == "G" ? 0 : 1;
             std::string r = guarded([&] {
-                RadialDispersalKernel<Raster<int>> kernel(
-                    d(2), d(3), ktype_of(t[4]), d(5), dir_of(t[1]), 1e6, d(6));
-                std::mt19937_64 g(i(7));
                 std::string s;
-                for (int j = 0; j < i(8); j++) {
-                    int row, col;
-                    std::tie(row, col) = kernel(g, 0, 0);
-                    s += " " + std::to_string(row) + ":" + std::to_string(col);
+                int n = i(o + 8);
+                if (c == "G") {
+                    RadialDispersalKernel<Raster<int>> kernel(
+                        d(2), d(3), ktype_of(t[4]), d(5), dir_of(t[1]), 1e6, d(6));
+                    std::mt19937_64 g(i(7));
+                    for (int j = 0; j < n; j++) {
+                        int row, col;
+                        std::tie(row, col) = kernel(g, 0, 0);
+                        s += " " + std::to_string(row) + ":" + std::to_string(col);
+                    }
+                }
+                else {
+                    Raster<int> dispersers(5, 5, 0);
+                    Network<int> network = Network<int>::null_network();
+                    auto kernel = factory_radial(t[1], t[5], d(6), d(7), t[2], 1e6, d(3), d(4), dispersers, network);
+                    Gen g(i(8));
+                    for (int j = 0; j < n; j++) {
+                        int row, col;
+                        std::tie(row, col) = (*kernel)(g, 0, 0);
+                        s += " " + std::to_string(row) + ":" + std::to_string(col);
+                    }
                 }
                 return s;
             });
             std::printf("%d geo%s%s\n", k, r[0] == ' ' ? "" : " ", r.c_str());
         }
-        else if (c == "R") {
-            // R kname scale shape dir kappa ew ns seed n
+        else if (c == "R" || c == "RF") {
+            // R kname scale shape dir kappa ew ns seed n   /   RF nat|ant kname scale shape dir kappa ew ns seed n
+            size_t o = c == "R" ? 0 : 1;
             std::string r = guarded([&] {
-                double scale = d(2), shape = d(3), kappa = d(5), ew = d(6), ns = d(7);
-                int n = i(9);
-                RadialDispersalKernel<Raster<int>> kernel(ew, ns, ktype_of(t[1]), scale, dir_of(t[4]), kappa, shape);
-                DistanceLaw law = make_law(t[1], scale, shape);
-                std::mt19937_64 g(i(8));
+                double scale = d(o + 2), shape = d(o + 3), kappa = d(o + 5), ew = d(o + 6), ns = d(o + 7);
+                int n = i(o + 9);
+                const std::string& kname = t[o + 1];
+                RadialDispersalKernel<Raster<int>> direct(ew, ns, ktype_of(kname), scale, dir_of(t[o + 4]), kappa, shape);
+                Raster<int> dispersers(5, 5, 0);
+                Network<int> network = Network<int>::null_network();
+                std::unique_ptr<KernelInterface<Gen>> made;
+                if (c == "RF")
+                    made = factory_radial(t[1], kname, scale, shape, t[o + 4], kappa, ew, ns, dispersers, network);
+                DistanceLaw law = make_law(kname, scale, shape);
+                std::mt19937_64 g(i(o + 8));
+                Gen g32(i(o + 8));
                 std::vector<double> rho(n);
                 long quad[4] = {0, 0, 0, 0};
                 for (int j = 0; j < n; j++) {
                     int row, col;
-                    std::tie(row, col) = kernel(g, 0, 0);
+                    if (c == "R")
+                        std::tie(row, col) = direct(g, 0, 0);
+                    else
+                        std::tie(row, col) = (*made)(g32, 0, 0);
                     rho[j] = std::hypot(row * ns, col * ew);
                     // quadrant of the displacement: 0 = NE, 1 = SE, 2 = SW, 3 = NW (axes excluded)
                     if (row < 0 && col > 0) quad[0]++;
